@@ -13,6 +13,7 @@ every passing style, raise, try/except) and are run statement by statement on
 the real controller and by the model (`exec`).
 """
 import ast
+import json
 import os
 import re
 import struct
@@ -194,7 +195,7 @@ class FakeConn(object):
             from rig.machine_control.scp_connection import SCPError
             raise SCPError("injected: no reply")
 
-    def _reply(self, x, y, cmd, arg1, arg2, arg3):
+    def _reply(self, x, y, cmd, arg1, arg2, arg3, p=0):
         from rig.machine_control.packets import SCPPacket
         from rig.machine_control.consts import SCPCommands as C
         from rig.machine_control.scp_connection import SCPError
@@ -209,14 +210,17 @@ class FakeConn(object):
             px, py = (rx, ry) if (x, y) == (255, 255) else (x, y)
             a1 = (px << 24) | (py << 16)
             a2 = (0xFFFF << 16) | 256
-            data = b"SC&MP/SpiNNaker\x002.1.0\x00"
+            env = self.state.get("env") or {}
+            data = (b"SARK/SpiNNaker\x002.0.1\x00" if env.get("chip_vars") and p % 2 else b"SC&MP/SpiNNaker\x002.1.0\x00")
         elif cmd == C.alloc_free:
             a1 = 0 if fault == "alloc0" else 0x60000000
         elif cmd == C.info:
             if [x, y] in mach.get("info_fail", []):
                 raise SCPError("injected: chip does not answer")
             up = 0 if [x, y] in mach.get("eth_down", []) else (1 << 25)
-            a1 = 18 | (0x3f << 8) | up
+            env = mach.get("env") or self.state.get("env") or {}
+            cores = 1 + (x * 7 + y * 3 + env.get("salt", 0)) % 18 if env.get("chip_vars") else 18
+            a1 = cores | (((x * 5 + y) % 64 if env.get("chip_vars") else 0x3f) << 8) | up
             ip = 10 | ((x & 0xff) << 16) | ((y & 0xff) << 24)
             data = bytes(18) + struct.pack("<HI", 0, ip)
         elif cmd == C.iptag:
@@ -235,7 +239,7 @@ class FakeConn(object):
         if self.state.get("fail_signal") and int(cmd) == 22:
             self.state["fail_signal"] = False
             raise StopFailed()
-        return self._reply(int(x), int(y), cmd, arg1, arg2, arg3)
+        return self._reply(int(x), int(y), cmd, arg1, arg2, arg3, int(p))
 
     def read(self, buffer_size, window_size, x, y, p, address, length_bytes):
         self._record({"kind": "mem", "conn": self.name, "x": int(x), "y": int(y), "p": int(p),
@@ -247,6 +251,9 @@ class FakeConn(object):
             return b"\x05"                      # a core's cpu_state: AppState.wait (the application loaded)
         if self.state.get("fault") == "iobuf" and length_bytes == 4:
             return struct.pack("<I", 0x1000)    # non-zero IOBUF pointer: get_iobuf_bytes follows it once
+        if length_bytes == 4 and (self.state.get("env") or {}).get("chip_vars"):
+            # per-chip system variables (vcpu_base, sdram_sys, iobuf_size, ...) differ from chip to chip
+            return struct.pack("<I", 0x60000000 + 0x1000 * ((int(x) * 31 + int(y)) % 97))
         return bytes(length_bytes)
 
     def write(self, buffer_size, window_size, x, y, p, address, data):
@@ -266,7 +273,7 @@ class World(object):
         self.objs, self.active = {}, []      # kept context objects by name; the with-blocks being executed
         self.entered = set()
         self.state = {"kind": "scp" if cls == "MachineController" else "bmp", "world": self,
-                      "machine": cfg.get("machine")}
+                      "machine": cfg.get("machine"), "env": cfg.get("env")}
         self.base_snap = None
         if cls == "MachineController":
             import rig.machine_control.machine_controller as m
@@ -274,29 +281,54 @@ class World(object):
             # every SCPConnection the controller opens (the initial one, and those of discover_connections)
             # is a recording fake named after the host it was opened to
             m.SCPConnection = lambda host, *a, **k: FakeConn(host_name(host), self.log, self.mem, self.state)
+            klass = m.MachineController
+            if cfg.get("subclass"):
+                # an application's own subclass of the controller (the context mechanism is inherited)
+                class Sub(m.MachineController):
+                    def __init__(self, *a, **k):
+                        super(Sub, self).__init__(*a, **k)
+                        self.own_attribute = 1
+                klass = Sub
             try:
-                self.c = m.MachineController("nohost", initial_context=py_dict(init)) if init is not None \
-                    else m.MachineController("nohost")
+                init_d = py_dict(init) if init is not None else None
+                self.c = klass("nohost", initial_context=init_d) if init is not None else klass("nohost")
+                if init_d is not None:
+                    init_d.clear()                  # the caller goes on using its own dictionary
+                    init_d["x"] = 12345
             except Exception:
                 m.SCPConnection = self.real_conn
                 raise
             self.mod = m
-            self.c._scp_data_length = 256
+            env = cfg.get("env") or {}
+            self.c._scp_data_length = env.get("buf", 256)
+            self.c._window_size = env.get("win")
             self.load_machine()
             self.apply_cfg()
             self.base_snap = self.snapshot()
         else:
             import rig.machine_control.bmp_controller as b
             real = b.SCPConnection
-            b.SCPConnection = lambda host, *a, **k: FakeConn(list(host), self.log, self.mem, self.state)
+            b.SCPConnection = lambda host, *a, **k: FakeConn([0, 0] if isinstance(host, str) else list(host),
+                                                             self.log, self.mem, self.state)
+            klass = b.BMPController
+            if cfg.get("subclass"):
+                class SubB(b.BMPController):
+                    pass
+                klass = SubB
             try:
-                hosts = {tuple(k): tuple(k) for k in cfg["bmp_conns"]}
-                self.c = b.BMPController(hosts, initial_context=py_dict(init)) if init is not None \
-                    else b.BMPController(hosts)
+                # a single host name stands for all boards of cabinet 0, frame 0
+                hosts = "bmp-host" if cfg.get("host_str") else {tuple(k): tuple(k) for k in cfg["bmp_conns"]}
+                init_d = py_dict(init) if init is not None else None
+                self.c = klass(hosts, initial_context=init_d) if init is not None else klass(hosts)
+                if init_d is not None:
+                    init_d.clear()
+                    init_d["board"] = 12345
+                if isinstance(hosts, dict):
+                    hosts.clear()                   # the caller's dictionary of hosts is its own
             finally:
                 b.SCPConnection = real
             self.mod = b
-            self.c._scp_data_length = 256
+            self.c._scp_data_length = (cfg.get("env") or {}).get("buf", 256)
 
     def close(self):
         if self.cls == "MachineController":
@@ -556,6 +588,7 @@ def method_args(cls, name, rng):
 # closure tap: observe f(self, *args, **new_kwargs) inside the decorator's wrapper
 # --------------------------------------------------------------------------
 _TAP = {"depth": 0, "rec": None, "installed": {}}
+_HANGS = [0]
 
 
 def install_tap(klass):
@@ -604,7 +637,17 @@ class Unwind(Exception):
 
 
 def merged_of(c):
-    return sorted(([k, to_val(v)] for k, v in c.get_context_arguments().items()), key=lambda kv: kv[0])
+    """`get_context_arguments()`, canonical; the caller then keeps the dictionary it was handed (the first few,
+    re-checked at the end of the history) or scribbles on it (all others)"""
+    d = c.get_context_arguments()
+    out = sorted(([k, to_val(v)] for k, v in d.items()), key=lambda kv: kv[0])
+    kept = c.__dict__.setdefault("_c18_kept", [])
+    if len(kept) < 6:
+        kept.append((d, dict(d)))
+    else:
+        d.clear()
+        d["x"] = d["app_id"] = d["board"] = "scribbled"
+    return out
 
 
 def do_call(w, m, pos, kw, events, ev_id, fault=None):
@@ -616,9 +659,17 @@ def do_call(w, m, pos, kw, events, ev_id, fault=None):
     kwargs = py_dict(kw, _OBJS)
     exc, out, res = None, None, None
     w.state["fault"], w.state["req_no"] = fault, 0
+    from harness import common
     try:
-        res = getattr(c, m)(*args, **kwargs)
+        # the model's `exec` / `wire` are total; a call of the implementation takes milliseconds here: one that is
+        # still running after 5 s of CPU time (1 s once that has happened 3 times) is reported as not returning
+        with common.cpu_limit(5 if _HANGS[0] < 3 else 1):
+            res = getattr(c, m)(*args, **kwargs)
         out = {"sent": True}
+    except common.ImplHang as e:
+        _HANGS[0] += 1
+        exc = RuntimeError(str(e))
+        out = {"sent": True, "hang": str(e)[:120], "failed": "DidNotReturn"}
     except TypeError as e:
         exc = e
         mm = re.match(r"^(\w+): missing argument (\w+)$", str(e))
@@ -664,7 +715,7 @@ def register_callbacks(w, cm, cb, events):
     cm.before_close(callback)
 
 
-def enter_object(w, st, cm, is_app, events):
+def enter_object(w, st, cm, is_app, events, body_fn=None):
     """`with cm: body` for a context object that may be fresh, active already, or used before"""
     c = w.c
     before = merged_of(c)
@@ -679,7 +730,10 @@ def enter_object(w, st, cm, is_app, events):
             w.active.append(frame)
             events.append({"ev": "enter", "id": st["id"], "merged": merged_of(c), "object": kind})
             try:
-                run_prog(w, st["body"], events)
+                if body_fn is not None:
+                    body_fn()
+                else:
+                    run_prog(w, st["body"], events)
             finally:
                 mark[0] = len(w.log)
                 if is_app and st.get("stop_fails"):
@@ -693,9 +747,11 @@ def enter_object(w, st, cm, is_app, events):
                            "app": is_app, "datagrams": w.log[mark[0]:end], "cb": frame["cbmark"] is not None})
 
 
-def run_prog(w, prog, events):
+def run_prog(w, prog, events, hook=None):
     c = w.c
     for st in prog:
+        if hook is not None:
+            hook()          # (top level only: the other controller's next command)
         s = st["s"]
         if s == "raise":
             raise Unwind()
@@ -734,6 +790,21 @@ def run_prog(w, prog, events):
         elif s == "enter":
             cm, is_app = w.objs[st["oid"]]
             enter_object(w, st, cm, is_app, events)
+        elif s == "deep":
+            # st["n"] nested `with c(**ctxs[i % k]):` blocks around the body (written flat: neither the harness
+            # nor the JSON encoder should be what limits the depth)
+            import contextlib
+
+            def left(sid, before):
+                events.append({"ev": "exit", "id": sid, "merged": merged_of(c), "before": before, "app": False,
+                               "datagrams": [], "cb": False})
+            with contextlib.ExitStack() as stack:
+                for i in range(st["n"]):
+                    cm = c(**py_dict(st["ctxs"][i % len(st["ctxs"])], _OBJS))
+                    stack.callback(left, st["id"] + i, merged_of(c))
+                    stack.enter_context(cm)
+                    events.append({"ev": "enter", "id": st["id"] + i, "merged": merged_of(c), "object": "fresh"})
+                run_prog(w, st["body"], events)
         else:
             raise ValueError(s)
 
@@ -741,23 +812,70 @@ def run_prog(w, prog, events):
 def run_impl(case):
     _WRAPPED.clear()
     del _KEEP[:]
+    if _DEFAULTS[0] is None:
+        _DEFAULTS[0] = default_contexts()
     w = World(case["cls"], case["cfg"], case.get("init"))
     events = []
-    raised = False
+    raised = [False]
     real_time = w.mod.time
     w.mod.time = FakeTime()
+    comp, w2, events2 = case.get("companion"), None, []
+
+    def first(hook=None):
+        try:
+            run_prog(w, case["prog"], events, hook)
+        except Unwind:
+            raised[0] = True
+        except (TypeError, AssertionError, StopFailed, RuntimeError) + fault_exceptions():
+            raised[0] = True
     try:
-        install_tap(type(w.c))
-        run_prog(w, case["prog"], events)
-    except Unwind:
-        raised = True
-    except (TypeError, AssertionError, StopFailed) + fault_exceptions():
-        raised = True
+        install_tap([k for k in type(w.c).__mro__ if k.__module__.startswith("rig.")][0])
+        if comp is None:
+            first()
+        else:
+            # a second controller of the same class, with a block of its own open during the whole program of the
+            # first one; its commands are issued between the first one's top-level statements
+            w2 = World(case["cls"], case["cfg"], comp["init"])
+            todo = list(comp["calls"])
+
+            def other():
+                if todo:
+                    st = todo.pop(0)
+                    do_call(w2, st["m"], st["pos"], st["kw"], events2, st["id"])
+
+            def both():
+                first(other)
+                while todo:
+                    other()
+            enter_object(w2, {"id": 900000}, w2.c(**py_dict(comp["ctx"], _OBJS)), False, events2, body_fn=both)
     finally:
         w.mod.time = real_time
+        if w2 is not None:
+            w2.close()
         w.close()
     stack_merged = merged_of(w.c)
-    return {"events": events, "raised": raised, "merged": stack_merged}
+    res = {"events": events, "raised": raised[0], "merged": stack_merged}
+    if w2 is not None:
+        res["companion"] = {"events": events2, "raised": False, "merged": merged_of(w2.c)}
+    changed = [(dict(d), cp) for d, cp in w.c.__dict__.get("_c18_kept", []) if d != cp]
+    if changed:
+        res["kept_changed"] = [[sorted(map(str, a)), sorted(map(str, b))] for a, b in changed[:2]]
+    now = default_contexts()
+    if now != _DEFAULTS[0]:
+        res["defaults_changed"] = [repr(_DEFAULTS[0]), repr(now)]
+    return res
+
+
+def default_contexts():
+    """the constructors' default arguments (the documented initial contexts are among them)"""
+    import copy
+    import rig.machine_control.machine_controller as m
+    import rig.machine_control.bmp_controller as b
+    from rig.utils.contexts import ContextMixin
+    return copy.deepcopy([repr(k.__init__.__defaults__) for k in (m.MachineController, b.BMPController, ContextMixin)])
+
+
+_DEFAULTS = [None]
 
 
 # --------------------------------------------------------------------------
@@ -801,15 +919,28 @@ def ctx_names(cls):
     return MC_CTX if cls == "MachineController" else BMP_CTX
 
 
+def desc_of(case):
+    return case.get("_desc") or {k: case[k] for k in ("cls", "cfg", "init", "prog", "companion") if k in case}
+
+
 def evaluate(ctx, cases):
     """cases: list of {cls, cfg, init, prog, ...}"""
     if not cases:
         return
     impl = [run_impl(c) for c in cases]
+    # the second controller of a case is judged like a case of its own (its program: one block around its commands)
+    cases = list(cases)
+    for c, im in list(zip(cases, impl)):
+        if "companion" in im:
+            comp = c["companion"]
+            cases.append({"cls": c["cls"], "cfg": c["cfg"], "init": comp["init"], "_desc": desc_of(c), "uses_ctx": True,
+                          "prog": [{"s": "block", "id": 900000, "ctx": comp["ctx"], "body": comp["calls"]}],
+                          "label": "companion"})
+            impl.append(im.pop("companion"))
     model = ctx.lean([model_request(c, im) for c, im in zip(cases, impl)])
     oreqs, oidx = [], []
     for ci, (case, im, mo) in enumerate(zip(cases, impl, model)):
-        desc = {k: case[k] for k in ("cls", "cfg", "init", "prog") if k in case}
+        desc = desc_of(case)
         ctx.traces += 1
         if "proto_error" in mo:
             ctx.mismatch("c18.run", "model rejected the request: %s" % mo["proto_error"], desc)
@@ -820,6 +951,13 @@ def evaluate(ctx, cases):
         if [(e["ev"], e["id"]) for e in mo["events"]] != [(e["ev"], e["id"]) for e in im["events"]]:
             ctx.mismatch("c18.events", "event sequences differ: impl=%r model=%r" % (
                 [(e["ev"], e["id"]) for e in im["events"]], [(e["ev"], e["id"]) for e in mo["events"]]), desc)
+        if "kept_changed" in im:
+            ctx.mismatch("c18.kept", "a dictionary get_context_arguments() handed back changed afterwards: %r" % (im["kept_changed"],), desc)
+        if "defaults_changed" in im:
+            ctx.violation("default-context-changed",
+                          "after this history a NEW controller no longer starts with the documented default arguments: "
+                          "constructor defaults were %s, are now %s" % tuple(im["defaults_changed"]), desc)
+            _DEFAULTS[0] = None
         if im["raised"] != mo["raised"]:
             ctx.mismatch("c18.raised", "impl raised=%r model raised=%r" % (im["raised"], mo["raised"]), desc)
         if sorted_pairs(mo["merged"]) != im["merged"]:
@@ -859,7 +997,24 @@ def evaluate(ctx, cases):
                         ctx.mismatch("c18.reject", "impl rejects (%r), model accepts" % (out["rejected"],), desc)
                     continue
                 ctx.tag("method:%s.%s" % ("mc" if case["cls"] == "MachineController" else "bmp", meth))
-                if "body_exc" in out:
+                lab = case.get("label", "")
+                if lab.startswith(("scale/", "twins/", "companion")):
+                    ctx.tag("stream:" + lab)
+                for kv in list(out.get("kwargs", [])):
+                    if kv[1] is True or kv[1] is False:
+                        if kv[0] in ctx_names(case["cls"]):
+                            ctx.tag("kind:bool-as-int")
+                    elif kv[1] == 0 and kv[0] in ctx_names(case["cls"]):
+                        ctx.tag("kind:zero")
+                if case["cfg"].get("subclass"):
+                    ctx.tag("cfg:subclass")
+                if case["cfg"].get("env"):
+                    ctx.tag("cfg:env-buf%s%s" % (case["cfg"]["env"]["buf"], "+chip-vars" if case["cfg"]["env"]["chip_vars"] else ""))
+                if case["cfg"].get("host_str"):
+                    ctx.tag("cfg:bmp-single-host")
+                if "hang" in out:
+                    ctx.violation("did-not-return", "%s.%s did not return: %s" % (case["cls"], meth, out["hang"]), desc)
+                elif "body_exc" in out:
                     ctx.mismatch("c18.body", "%s.%s raised %s" % (case["cls"], meth, out["body_exc"]), desc)
                 elif "failed" in out:
                     ctx.tag("fault:%s:%s" % (fault_name(e["fault"]), out["failed"]))
@@ -927,6 +1082,14 @@ def evaluate(ctx, cases):
         if case.get("exc_exit"):
             nontriv = True
         case["_nontriv"] = nontriv
+        js = json.dumps([case["prog"], case.get("init")])
+        for kind in INT_KINDS + KINDS + ("bytearray", "memoryview"):
+            if '"k": "%s"' % kind in js:
+                ctx.tag("kind:%s" % kind)
+        if '"fault"' in js:
+            for n in range(7):
+                if '"fault": ["scp_err", %d]' % n in js:
+                    ctx.tag("fault-at-request:%d" % n)
     for (ci, desc, e, what, meth), r in zip(oidx, ctx.lean(oreqs)):
         if "proto_error" in r:
             ctx.mismatch("c18.oracle", r["proto_error"], desc)
@@ -948,7 +1111,7 @@ def evaluate(ctx, cases):
                           "%s.%s: a datagram did not travel over the connection of the board holding its target: %r" % (
                               cls, meth, e["datagrams"][:4]), desc)
     for case in cases:
-        desc = {k: case[k] for k in ("cls", "cfg", "init", "prog") if k in case}
+        desc = desc_of(case)
         ctx.case(desc, case.get("_nontriv", False))
 
 
@@ -1105,6 +1268,19 @@ class Gen(object):
 
 
 def random_cfg(rng, cls):
+    cfg = random_cfg0(rng, cls)
+    if rng.random() < 0.15:
+        cfg["subclass"] = True
+    if rng.random() < 0.4:
+        # what the (simulated) machine fixes: buffer size, window, and per-chip replies that differ between chips
+        cfg["env"] = {"buf": rng.choice([16, 64, 256, 512, 1024]), "win": rng.choice([None, 1, 8]),
+                      "chip_vars": rng.random() < 0.6, "salt": rng.randrange(18)}
+    if cls == "BMPController" and rng.random() < 0.08:
+        cfg["bmp_conns"], cfg["host_str"] = [[0, 0]], True
+    return cfg
+
+
+def random_cfg0(rng, cls):
     if cls == "BMPController":
         keys = [[c, f] for c in range(2) for f in range(2)] + [[c, f, b] for c in range(2) for f in range(2) for b in range(3)]
         k = [key for key in keys if rng.random() < 0.45]
@@ -1185,7 +1361,8 @@ def extra_cases(ctx, rng, reps):
         for (cls, name), sig in sorted(signatures().items()):
             if (cls, name) in _SKIP or name == "application":
                 continue
-            faults = (FAULTS.get(name, []) + [["scp_err", 0], ["scp_err", rng.randrange(1, 4)]]) if cls == mc else [None]
+            # the n-th request of the call is lost, for every n the longest operations reach
+            faults = (FAULTS.get(name, []) + [["scp_err", n] for n in range(7)]) if cls == mc else [None]
             if name == "wait_for_cores_to_reach_state":
                 faults = faults + ["notwait"]       # polls until the timeout (set below) expires
             for fault in faults:
@@ -1333,6 +1510,100 @@ def explicit_cases(ctx, rng, reps):
                               "prog": [{"s": "block", "id": g.fresh_id(), "ctx": ctxd, "body": [st]}],
                               "depth": 1, "uses_ctx": True, "exc_exit": False,
                               "label": "explicit/%s.%s/%s" % (cls, name, style)})
+    return cases
+
+
+def scale_cases(ctx, rng, reps):
+    """a handful of cases far beyond the usual size: > 1000 nested blocks, contexts with hundreds of names,
+    connection tables of the largest machines"""
+    cases = []
+    for rep in range(reps):
+        for cls in ("MachineController", "BMPController"):
+            cfg = random_cfg0(rng, cls)
+            g = Gen(rng, cls, cfg)
+            names = ctx_names(cls)
+            probe = lambda: g.call("sdram_free" if cls == "MachineController" else "read_adc", "default", caught=True)[0]
+            ctxs = [g.decoys([n for n in names if rng.random() < 0.5]) for _ in range(7)] + [g.decoys(names)]
+            n = rng.choice([1100, 1500]) if cls == "MachineController" else 257
+            body = [probe()] + ([{"s": "raise"}] if rng.random() < 0.5 else [])
+            prog = [{"s": "try", "body": [{"s": "deep", "id": 10000, "n": n, "ctxs": ctxs, "body": body}]}, probe()]
+            cases.append({"cls": cls, "cfg": cfg, "init": None, "prog": prog, "depth": 1, "uses_ctx": True,
+                          "exc_exit": len(body) > 1, "label": "scale/deep"})
+            # a context with hundreds of names (most of them no argument of anything)
+            g = Gen(rng, cls, cfg)
+            wide = [["n%d" % i, i] for i in range(rng.choice([257, 400]))] + g.decoys(names)
+            rng.shuffle(wide)
+            prog = [{"s": "block", "id": g.fresh_id(), "ctx": wide, "body": [
+                probe(), {"s": "update", "kv": [["m%d" % i, i] for i in range(300)]}, probe(),
+                {"s": "block", "id": g.fresh_id(), "ctx": g.decoys(names[:1]), "body": [probe()]}, probe()]}, probe()]
+            cases.append({"cls": cls, "cfg": cfg, "init": None, "prog": prog, "depth": 1, "uses_ctx": True,
+                          "exc_exit": False, "label": "scale/wide"})
+        # the largest connection tables: every board of a 256 x 256 / 240 x 252 machine discovered
+        for (w, h) in ((256, 256), (240, 252), (1, 255)):
+            root = [rng.choice([0, 4, 8]) % w, rng.choice([0, 8, 4]) % h]
+            eth = []
+            for bx in range(0, w + 12, 12):
+                for by in range(0, h + 12, 12):
+                    for dx, dy in ((0, 0), (4, 8), (8, 4)):
+                        e = [(bx + dx + root[0]) % w, (by + dy + root[1]) % h]
+                        eth.append(e)
+            eth = [list(t) for t in sorted({tuple(e) for e in eth})]
+            cfg = {"dims": [w, h], "root": root, "conns": [e for e in eth if rng.random() < 0.9]}
+            g = Gen(rng, "MachineController", cfg)
+            prog = []
+            for _ in range(12):
+                st, need = g.call(rng.choice(["read", "sdram_free", "get_chip_info", "fill", "iptag_get"]), "context")
+                g.used = set()
+                prog.append({"s": "block", "id": g.fresh_id(), "ctx": [[k, v] for k, v in need.items()], "body": [st]})
+            cases.append({"cls": "MachineController", "cfg": cfg, "init": None, "prog": prog, "depth": 1, "uses_ctx": True,
+                          "exc_exit": False, "label": "scale/table"})
+    return cases
+
+
+def twin_cases(ctx, rng, reps):
+    """TWINS on one controller: the same command three times, the middle one differing in exactly one contextual
+    argument (A B A) - given explicitly, and through the enclosing context; and a second controller of the same
+    class, in the same process, kept inside a block of its own and used alternately (its commands must not be
+    touched by the first one's contexts, nor the other way round)"""
+    import copy
+    cases = []
+    for rep in range(reps):
+        for (cls, name) in sorted(signatures()):
+            if (cls, name) in _SKIP or name in ("application", "discover_connections", "get_system_info"):
+                continue
+            sig = signatures()[(cls, name)]
+            cn = [n for n in sig["argNames"][1:] + [k for k, _ in sig["kwOnly"]] if n in ctx_names(cls)]
+            if not cn:
+                continue
+            cfg = random_cfg(rng, cls)
+            g = Gen(rng, cls, cfg)
+            style = rng.choice(["keyword", "context"])
+            a, need = g.call(name, style)
+            twin = rng.choice(cn)
+            other = g.kinded(twin, g.ctx_value(twin))
+
+            def variant(st, need, change):
+                st, need = copy.deepcopy(st), dict(need)
+                st["id"] = g.fresh_id()
+                if change:
+                    if twin in need:
+                        need[twin] = other
+                    else:
+                        st["kw"] = [[k, other if k == twin else v] for k, v in st["kw"]]
+                return {"s": "block", "id": g.fresh_id(), "ctx": [[k, v] for k, v in need.items()], "body": [st]}
+            order = [False, True, False] if rng.random() < 0.5 else [True, False, True]
+            prog = [variant(a, need, ch) for ch in order]
+            case = {"cls": cls, "cfg": cfg, "init": None, "prog": prog, "depth": 1, "uses_ctx": bool(need),
+                    "exc_exit": False, "label": "twins/%s" % style}
+            if rng.random() < 0.5:
+                # the second controller: its own initial context, one block open all the time, one command between
+                # every two statements of the first controller's program
+                g2 = Gen(rng, cls, cfg)
+                case["companion"] = {"init": g2.decoys([n for n in ctx_names(cls) if rng.random() < 0.5]),
+                                     "ctx": g2.decoys(ctx_names(cls)),
+                                     "calls": [g2.call(name, rng.choice(["default", "keyword", "mixed"]))[0] for _ in range(4)]}
+                case["label"] += "+companion"
+            cases.append(case)
     return cases
 
 
@@ -1513,7 +1784,7 @@ def random_prog(g, depth, budget):
             else:
                 prog.append(st)
         elif r < 0.62:
-            pool = ctx_names(cls) + ["tag", "clear", "foo"]
+            pool = ctx_names(cls) + ["tag", "clear", "foo", "100%s", "{}", "x{0}%d"]
             sub = [nm for nm in pool if rng.random() < 0.4]
             ctxd = g.decoys([nm for nm in sub if nm in ctx_names(cls)]) + [[nm, rng.randrange(2)] for nm in sub if nm not in ctx_names(cls)]
             if rng.random() < 0.04:
@@ -1705,6 +1976,8 @@ def run(ctx):
         cases = systematic_cases(ctx, rng, ctx.scale(1, 6) * mult)
         cases += extra_cases(ctx, rng, ctx.scale(1, 8) * mult)
         cases += reuse_cases(ctx, rng, ctx.scale(3, 40) * mult)
+        cases += scale_cases(ctx, rng, ctx.scale(1, 2) * mult)
+        cases += twin_cases(ctx, rng, ctx.scale(2, 16) * mult)
         cases += collection_cases(ctx, rng, ctx.scale(2, 12) * mult)
         cases += explicit_cases(ctx, rng, ctx.scale(3, 24) * mult)
         cases += random_cases(ctx, rng, ctx.scale(400, 40000) * mult)
